@@ -173,6 +173,7 @@ type world struct {
 	invPaths      []string // override of the invocation path pool
 	fixedPriority bool
 
+	alwaysRetry  bool
 	execAuthGate gate
 	killAuthGate gate
 	pendingKills []*pendingKill
@@ -346,6 +347,11 @@ func (w *world) stepExecute(instancePool []string) {
 		RetryOnFail: rapid.Bool().Draw(w.rt, "retryOnFail"),
 		BgOnSuccess: rapid.IntRange(0, 3).Draw(w.rt, "bg") == 0,
 		BgChoice:    rapid.IntRange(0, 2).Draw(w.rt, "bgChoice"),
+	}
+	if w.alwaysRetry {
+		plan.Choice = 0
+		plan.RetryOnFail = true
+		plan.BgOnSuccess = false
 	}
 	w.nextExec++
 	w.execute(t, inst, prio, inv, plan)
